@@ -5,7 +5,9 @@
   `Decoded` invariant: every decoded map's record sections are representable), Props/C04DecodedObjects.lean (the hit objects
   of decoded maps are representable up to named residuals), Props/C04DecodedTiming.lean + C04DecodedTimingToy.lean (the control
   points collected from decoded maps are representable up to the residual `CollectedTimesInLimit`; `encoded_file_accepted_decoded`).
-  All in namespace `Rosu.C04`.
+  Props/C04DecodedPaths.lean (the shape half of `RepPath` derived
+  from `convert_path_str`: for decoded sliders `PathShapeOk` is exactly `F17Free`; Props/C04DecodedPathsIeee.lean: its laws are
+  theorems of the IEEE instances). All in namespace `Rosu.C04`.
 -/
 import RosuModel.Props.C04Slider
 import RosuModel.Props.C04Timing
@@ -20,3 +22,5 @@ import RosuModel.Props.C04DecodedObjectsIeee
 import RosuModel.Props.C04DecodedTiming
 import RosuModel.Props.C04DecodedTimingToy
 import RosuModel.Props.C04DecodedTimingIeee
+import RosuModel.Props.C04DecodedPaths
+import RosuModel.Props.C04DecodedPathsIeee
